@@ -22,3 +22,7 @@ Definition run_geom (c : Z * Z * Z * Z * Z) : val :=
 Definition run_schedule (starts : list Z) : val :=
   vres (fun '(s0, s1) => VL [VL (map (fun '(a, b) => vlistZ [a; b]) s0); VL (map (fun '(a, b) => vlistZ [a; b]) s1)])
        (schedule starts).
+
+(* (n, np, D, X) -> stripe of an unwrapped position *)
+Definition run_key_unwrapped (c : Z * Z * Z * Z) : val :=
+  let '(n, np, D, X) := c in VZ (key_unwrapped n np D X).
